@@ -187,6 +187,7 @@ func (s *Server) serveOne(ctx context.Context, r io.Reader, w io.Writer, shmConn
 				emptySchema := arrow.NewSchema(nil, nil)
 				s.logIPCWriteErr("error-response", req.Method,
 					writeErrorResponse(w, emptySchema, rpcErr, s.serverID, req.RequestID, s.debugErrors))
+				s.drainRefusedStreamInput(r, req.Method)
 				return nil
 			}
 			req.Batch.Release()
@@ -221,6 +222,7 @@ func (s *Server) serveOne(ctx context.Context, r io.Reader, w io.Writer, shmConn
 		emptySchema := arrow.NewSchema(nil, nil)
 		s.logIPCWriteErr("error-response", req.Method,
 			writeErrorResponse(w, emptySchema, rpcErr, s.serverID, req.RequestID, s.debugErrors))
+		s.drainRefusedStreamInput(r, req.Method)
 		return nil
 	}
 
@@ -353,6 +355,18 @@ func (s *Server) serveOne(ctx context.Context, r io.Reader, w io.Writer, shmConn
 	}
 
 	return transportErr
+}
+
+// drainRefusedStreamInput discards the client's input stream after a request
+// for a stream method was refused before dispatch. The client of a stream call
+// writes its input stream right behind the request, so leaving it on the pipe
+// would make the next ReadRequest parse it as a request and mis-frame every
+// later response on the connection. Unary and unknown methods have no input
+// stream and are left alone.
+func (s *Server) drainRefusedStreamInput(r io.Reader, method string) {
+	if info, ok := s.methods[method]; ok && methodTypeString(info.Type) == DispatchMethodStream {
+		drainInputStream(r)
+	}
 }
 
 // serveUnary dispatches a unary method call.
